@@ -48,6 +48,20 @@ def main():
             got2 = np.array([float(c2(v)) for v in x])
             if not np.allclose(got2, y, rtol=1e-9, atol=1e-9):
                 fails.append(f"{tag}: restored object misses its support points")
+    # support points given in another order than increasing x (scipy's interp1d sorts them unless it is told not to)
+    xu, yu = np.array([2., 0.5, 3., 1., 4.]), np.array([5., 1., 10., 2., 12.])
+    for name, mk in (("Spline-linear", lambda net: SplineCharacteristic(net, xu, yu, kind="linear")),
+                     ("Spline-default", lambda net: SplineCharacteristic(net, xu, yu)),
+                     ("Spline-cubic", lambda net: SplineCharacteristic(net, xu, yu, kind="cubic")),
+                     ("LogSpline-linear", lambda net: LogSplineCharacteristic(net, xu, yu, kind="linear"))):
+        c = mk(pp.create_empty_network())
+        try:
+            got = np.array([float(c(v)) for v in xu])
+        except ValueError as e:
+            fails.append(f"{name}[unsorted x]: evaluation raised ValueError: {e}")
+            continue
+        if not np.allclose(got, yu, rtol=1e-9, atol=1e-9):
+            fails.append(f"{name}[unsorted x]: value at a support point differs from the given y (max dev {np.max(np.abs(got - yu)):.3e})")
     for f in fails:
         print("REPRODUCED:", f)
     if not fails:
